@@ -406,7 +406,8 @@ class SyncObj(object):
                    getattr(getattr(self, m), 'replicated', False) and \
                    m != getattr(getattr(self, m), 'origName')]
 
-        self.__currentVersionFuncNames = {}
+        # Built locally and published with one assignment: application threads read it in _getFuncName
+        currentVersionFuncNames = {}
 
         funcVersions = collections.defaultdict(set)
         for method in methods:
@@ -429,7 +430,9 @@ class SyncObj(object):
                 if v > newVersion:
                     break
                 realFuncName = funcName[1] if isinstance(funcName, tuple) else funcName
-                self.__currentVersionFuncNames[funcName] = realFuncName + '_v' + str(v)
+                currentVersionFuncNames[funcName] = realFuncName + '_v' + str(v)
+
+        self.__currentVersionFuncNames = currentVersionFuncNames
 
     def _getFuncName(self, funcName):
         return self.__currentVersionFuncNames[funcName]
